@@ -851,7 +851,7 @@ class CallTimeout(BaseException):
 
 
 class time_limit:
-    """`with time_limit(20): f()` raises CallTimeout in the main thread of the process after 20 s (SIGALRM).
+    """`with time_limit(20): f()` raises CallTimeout in the main thread of the process after 20 s of CPU time of this process (ITIMER_PROF: a loaded machine cannot trigger it).
     A function under test that does not return is reported, never waited for."""
 
     def __init__(self, seconds):
@@ -862,14 +862,14 @@ class time_limit:
 
         def _h(signum, frame):
             raise CallTimeout()
-        self.old = signal.signal(signal.SIGALRM, _h)
-        signal.setitimer(signal.ITIMER_REAL, self.s)
+        self.old = signal.signal(signal.SIGPROF, _h)
+        signal.setitimer(signal.ITIMER_PROF, self.s)
         return self
 
     def __exit__(self, *a):
         import signal
-        signal.setitimer(signal.ITIMER_REAL, 0)
-        signal.signal(signal.SIGALRM, self.old)
+        signal.setitimer(signal.ITIMER_PROF, 0)
+        signal.signal(signal.SIGPROF, self.old)
         return False
 
 
